@@ -165,11 +165,14 @@ def generate(seed: int, config: str, tier: str) -> Dict[str, Any]:
         prof = gen_patch.patch_profile(rng)
         if rng.random() < 0.5:
             prof["keys"] = prof["keys"] + ["0", "1", "~x", "#a", "ä"]
+        if rng.random() < 0.4:
+            # names that contain a percent sign or look percent-encoded: with -u they must be written %25..
+            prof["keys"] = prof["keys"] + ["%41", "50%", "a%20b", "%2541"]
         doc = gen_patch.gen_pdoc(rng, prof)
         loc = rng.choice(gen_json.walk(doc))[0]
         expr = gen_patch.enc(loc)
         if "-u" in sopts or "--uri-decode" in sopts:
-            expr = expr.replace(" ", "%20").replace('"', "%22")
+            expr = expr.replace("%", "%25").replace(" ", "%20").replace('"', "%22")
         if rng.random() < 0.1 and loc:
             expr = gen_patch.enc(loc[:-1]) + "/" + rng.choice(["~", "#"]) + str(loc[-1])
     else:
